@@ -147,6 +147,23 @@ fn header_value_byte_change(v: &mut Vec<u8>, t: &mut Tape) {
         v.extend(b"tampered");
         return;
     }
+    // (a byte outside ASCII is preferably changed into another such byte: an obs-text octet is an
+    // octet like any other, not "some undecodable character")
+    let high: Vec<usize> = idx.iter().cloned().filter(|i| v[*i] >= 0x80).collect();
+    if !high.is_empty() && t.chance(2) {
+        let i = high[t.below(high.len())];
+        let old = v[i];
+        let mut new = 0x80 + t.below(0x80) as u8;
+        if new == old {
+            new = if old == 0xe9 {
+                0xe8
+            } else {
+                0xe9
+            };
+        }
+        v[i] = new;
+        return;
+    }
     let i = idx[t.below(idx.len())];
     let old = v[i];
     let mut new = 0x21 + t.below(0x5e) as u8;
@@ -358,7 +375,12 @@ pub fn apply_logical(kind: &'static str, m: &mut Message, cx: &FaultCtx, t: &mut
                 let i = t.below(pairs.len());
                 match kind {
                     "query-change-value" => {
-                        change_byte(&mut pairs[i].1, t);
+                        if t.chance(4) {
+                            // a tail after a second '=' (a value may contain '=' as it stands)
+                            pairs[i].1.extend([&b"=ZZZ"[..], b"=", b"=="][t.below(3)]);
+                        } else {
+                            change_byte(&mut pairs[i].1, t);
+                        }
                     }
                     "query-change-name" => {
                         change_byte(&mut pairs[i].0, t);
@@ -896,10 +918,12 @@ pub fn apply_defect(kind: &'static str, m: &mut Message, cx: &FaultCtx, t: &mut 
         "bad-query-escape" => {
             let e = BAD_ESCAPES[t.below(BAD_ESCAPES.len())];
             // the malformed escape may come after well-formed characters of the same element
-            let mut v = match t.below(4) {
+            let mut v = match t.below(5) {
                 0 => b"zz=".to_vec(),
                 1 => b"zz=abc".to_vec(),
                 2 => b"abc".to_vec(),
+                // (the one parameter that is left out of the canonical query is parsed like any other)
+                4 if m.auth.carrier == Carrier::Header => b"X-Amz-Signature=ab".to_vec(),
                 _ => b"".to_vec(),
             };
             v.extend(e);
